@@ -21,7 +21,9 @@ func (c01) Rule() string {
 func (c01) Assumptions() []string {
 	return []string{"reference map model is the specification of Get/ListKeys/Fold", "values compared with bytes.Equal (nil == empty)", "sequential use only (concurrency is C08/C09)"}
 }
-func (c01) Required() []string { return []string{"compared_calls", "io.write", "rotations", "boundary_records"} }
+func (c01) Required() []string {
+	return []string{"compared_calls", "io.write", "rotations", "boundary_records"}
+}
 
 type seqCase struct {
 	Cfg   core.Config
